@@ -80,6 +80,23 @@ func runShard(a hkit.Args, al alphabet) shardOut {
 			out.Samples = append(out.Samples, sample{rel[i], eval(rel[i].Text, rel[i].Parent, false).String()})
 		}
 	}
+	if a.Shard == 0 {
+		// (f) the stage uses what the function computes: every input of the absolute grid with at most K components
+		// away from the plainest one, handed to the real preprocessor worker as a source builds a seed, with logging
+		// off and with a sink that takes debug records
+		stageFails, n := stagePass(al, a.Tier)
+		st.clause["f"] += n
+		lf, ln := levelPass(al)
+		st.clause["g"] += ln
+		stageFails = append(stageFails, lf...)
+		for _, f := range stageFails {
+			f.Tier, f.Shard, f.Of = a.Tier, a.Shard, a.Of
+			out.FailCount[f.Sig]++
+			if old, ok := out.Fails[f.Sig]; !ok || smaller(f.Case, old.Case) {
+				out.Fails[f.Sig] = f
+			}
+		}
+	}
 	out.Evals, out.Accepted, out.Rejected, out.MaxOrders = evals, st.accepted, st.rejected, st.maxOrders
 	out.RejectClass, out.Clause = st.rejectClass, st.clause
 	out.Noted = hkit.SortedKeys(st.notedLoopbackLike)
